@@ -163,7 +163,7 @@ func genCondsFrom(t *rapid.T, min, max int, cands []interface{}) []Cond {
 				dup = true
 			}
 		}
-		if dup {
+		if dup || k == "" { // a sub-key argument needs a name
 			continue
 		}
 		cs[i].Key = k
